@@ -153,12 +153,14 @@ static CMDResult ProcessParam(
 static void DecodeLine(
         CMDRec const* pCMDRecs, int CMDRecCnt, char* OneLine, CMDErrCallback ErrProc) {
     int   z;
-    char *EnvStr[256], *start, *p;
-    int   EnvCnt = 0;
+    char **EnvStr, *start, *p;
+    int    EnvCnt = 0;
 
     ClrBlanks(OneLine);
     if ((*OneLine != '\0') && (*OneLine != ';')) {
-        start = OneLine;
+        /* a parameter and its separator take at least two characters */
+        EnvStr = (char**)malloc((strlen(OneLine) / 2 + 2) * sizeof(*EnvStr));
+        start  = OneLine;
         while (*start != '\0') {
             EnvStr[EnvCnt++] = start;
             p                = strchr(start, ' ');
@@ -193,6 +195,7 @@ static void DecodeLine(
                 break;
             }
         }
+        free(EnvStr);
     }
 }
 
